@@ -30,7 +30,15 @@ CLAIM = dict(
          "get_current_url are parameters of the model with the contract ASCII in, ASCII out (iri_to_uri: ASCII out; its "
          "percent-encoding part is C15_uri_ascii), instantiated with the identity for the correspondence runs, which use Location "
          "values that iri_to_uri leaves alone; IRI Locations and autocorrect are also judged on the implementation by the harness "
-         "oracle; the close clause is also checked through test.run_wsgi_app / Client.open / Response.from_app; Response.freeze, calculate_content_length, get_data, _ensure_sequence and add_etag are pinned statement by statement (freeze now closes the iterable it consumed: fix 17f1c6d); generator / iterator protocol, wsgi.file_wrapper and threads are runtime behaviour outside the model.",
+         "oracle; the close clause is also checked through test.run_wsgi_app / Client.open / Response.from_app; Response.freeze, calculate_content_length, get_data, _ensure_sequence and add_etag are pinned statement by statement (freeze now closes the iterable it consumed: fix 17f1c6d); generator / iterator protocol, wsgi.file_wrapper and threads are runtime behaviour outside the model."
+         " Statement pins: tools/pins/c05_response.txt: _iter_encoded and wrappers Response.__init__ / call_on_close / from_app / get_data / "
+         "set_data / calculate_content_length / _ensure_sequence / make_sequence / iter_encoded / is_streamed / is_sequence / close / "
+         "__enter__ / __exit__ / freeze / get_wsgi_headers / get_app_iter (translated conditions: holes) / get_wsgi_response / "
+         "__call__ / add_etag and the three class defaults, sansio Response.__init__ / status / status_code / _clean_status, "
+         "wsgi.ClosingIterator, remove_entity_headers, is_entity_header, test.run_wsgi_app; the Headers mutators are in "
+         "tools/pins/c08_containers.txt. Validated differentially only, no pin wanted: urllib.parse.urljoin (CPython); iri_to_uri "
+         "and get_current_url (contracts here; property C15 owns iri_to_uri), test.Client.open / Response.from_app callers "
+         "(drivers only: a double close shows as a concrete failure).",
     design="6/C05")
 
 
@@ -74,8 +82,32 @@ def _zcond(e: ast.expr, zatoms: dict[str, str], batoms: dict[str, str]) -> str:
     raise px.Unsupported(f"condition not supported: {t}")
 
 
+_ZREC = {"depth": 0, "texts": []}
+
+
+def _zrecording(fn):
+    def wrapped(e, *a, **k):
+        top = _ZREC["depth"] == 0
+        _ZREC["depth"] += 1
+        try:
+            return fn(e, *a, **k)
+        finally:
+            _ZREC["depth"] -= 1
+            if top and not isinstance(e, (ast.Name, ast.Constant)):
+                _ZREC["texts"].append(ast.unparse(e))
+    return wrapped
+
+
+_zcond = _zrecording(_zcond)
+
+
 def gen() -> None:
-    c08.gen()
+    _ZREC["texts"].clear()
+    deferred = None
+    try:
+        c08.gen()
+    except px.Unsupported as e:      # reported at the end: a refusal in the containers must not stop this regeneration
+        deferred = e
     wr = px.load("wrappers/response.py")
     sr = px.load("sansio/response.py")
     http = px.load("http.py")
@@ -223,6 +255,25 @@ def gen() -> None:
             "if overwrite or 'etag' not in self.headers:\n    self.set_etag(generate_etag(self.get_data()), weak)"]:
         raise px.Unsupported("Response.add_etag changed")
     px.write_if_changed(os.path.join(COQ, "C05", "Gen.v"), out)
+    # ---- statement pins (after Gen.v is written): what the response model and its oracles stand for and is not translated;
+    # the conditions translated by _zcond are holes
+    holes = {t_: "<TRANSLATED-CONDITION>" for t_ in _ZREC["texts"] if len(t_) >= 8}
+    keep = ["__init__", "call_on_close", "from_app", "get_data", "set_data", "calculate_content_length", "_ensure_sequence",
+            "make_sequence", "iter_encoded", "is_streamed", "is_sequence", "close", "__enter__", "__exit__", "freeze",
+            "get_wsgi_headers", "get_app_iter", "get_wsgi_response", "__call__", "add_etag"]
+    drop = [m for m in c08._method_names(R) if m not in keep and m not in
+            ("implicit_sequence_conversion", "autocorrect_location_header", "automatically_set_content_length", "data")]
+    text = "# wrappers/response.py\n" + c08.pin_items(wr, ["_iter_encoded", ("Response", drop)], holes,
+                                                      lambda a: isinstance(a, ast.AnnAssign) or ast.unparse(a.targets[0]) in drop)
+    SR = px.find_class(sr, "Response")
+    sdrop = [m for m in c08._method_names(SR) if m not in ("__init__", "status_code", "status", "_clean_status")]
+    text += "# sansio/response.py\n" + c08.pin_items(sr, [("Response", sdrop)], holes, lambda a: True)
+    text += "# wsgi.py\n" + c08.pin_items(wsgi, ["ClosingIterator"], holes)
+    text += "# http.py\n" + c08.pin_items(http, ["remove_entity_headers", "is_entity_header"], holes)
+    text += "# test.py\n" + c08.pin_items(px.load("test.py"), ["run_wsgi_app"], holes)
+    px.check_pin("C05", "c05_response.txt", text, "a response / WSGI method the C05 model or its oracles stand for")
+    if deferred is not None:
+        raise deferred
 
 
 # ====================================================================== harness
